@@ -1,6 +1,7 @@
 /- Line-protocol driver for the header repository model (correspondence for C01, C03, C07–C12, C17–C19). -/
 import BRV.Model.RepoOps
 import BRV.Model.Locator
+import BRV.Model.MainNet
 import BRV.Driver.Util
 
 open BRV BRV.Drv BRV.Repo
@@ -10,36 +11,6 @@ structure DState where
   hdrs : List (Nat × Hdr) := []      -- headers defined by the script
   genesis : Hdr := { id := 0, prev := 999999, bits := 0x1d00ffff, time := 1231006505 }
 deriving Inhabited
-
-def specialBase : Nat := 900000
-
-/-- ids of the split hashes: distinct hash values numbered from 900001 in order of first
-    appearance over (before, after) of `Facts.splits` then `Facts.requiredSplit`. -/
-def splitIds : List (Nat × Nat) :=
-  let hashes := (Facts.splits ++ Facts.requiredSplit).foldl (fun acc (_, b, a, _) =>
-    let acc := if acc.contains b then acc else acc ++ [b]
-    if acc.contains a then acc else acc ++ [a]) ([] : List Nat)
-  hashes.zipIdx.map fun (h, i) => (h, specialBase + 1 + i)
-
-def idOfHash (h : Nat) : Nat := (List.lookup h splitIds).getD 0
-
-def mkSplit (e : String × Nat × Nat × Nat) : Split :=
-  { name := e.1, before := idOfHash e.2.1, after := idOfHash e.2.2.1, height := (e.2.2.2 : Int) }
-
-/-- insertion sort, highest height first (sort.Sort of `Splits`, 2 elements). -/
-def sortSplits (l : List Split) : List Split :=
-  l.foldl (fun acc x =>
-    let rec ins : List Split → List Split
-      | [] => [x]
-      | y :: ys => if x.height > y.height then x :: y :: ys else y :: ins ys
-    ins acc) []
-
-def mainCfg (maxDepth : Int) (inv : List Nat) : Cfg :=
-  { mainNet := true, maxBranchDepth := maxDepth, cfgInvalid := inv, genesisId := 0,
-    splits := sortSplits (Facts.splits.map mkSplit), required := (Facts.requiredSplit.map mkSplit).head? }
-
-def testCfg (maxDepth : Int) (inv : List Nat) : Cfg :=
-  { mainNet := false, maxBranchDepth := maxDepth, cfgInvalid := inv, genesisId := 0 }
 
 def showVerdict : Verdict → String
   | .ok => "ok" | .known => "ok" | .unknown => "unknown" | .wrongChain => "wrongchain"
@@ -51,6 +22,7 @@ def showVerdict : Verdict → String
     else if (m.splitOn "Wrong Previous Hash").length > 1 then "err:wrong-previous-hash"
     else if (m.splitOn "Header Data Not Found").length > 1 then "err:header-data-not-found"
     else if (m.splitOn "calculate target").length > 1 then "err:calculate-target"
+    else if (m.splitOn "Header after genesis").length > 1 then "err:after-genesis"
     else "err:other"
   | .panic _ => "panic"
 
@@ -100,13 +72,52 @@ def dump (s : DState) : String :=
   let ranges := [rng 0 (top + 2), rng (if th ≥ 3 then th - 3 else 0) 10, rng (th / 2) 5]
   s!"{tipStr r} hh=[{joinWith "," hh}] ch=[{joinWith "," ch}] gh=[{joinWith "," gh}] ph=[{joinWith "," ph}] at=[{joinWith "," ats}] rg=[{joinWith ";" ranges}]"
 
+def evKind : StoreEv → String
+  | .mainWrite f _ => s!"M{f}"
+  | .mainRemove f => s!"R{f}"
+  | .branchWrite k _ => s!"B{k}"
+  | .indexWrite _ => "I"
+  | .invalidWrite _ => "V"
+
+/-- is the chain reported by the loaded repository linked from genesis to its tip? -/
+def linkedFromGenesis (r : Repo) (g : Hdr) : Bool :=
+  let h := tipHeight r
+  let rec go : Nat → Int → Option Nat → Bool
+    | 0, _, prev => prev == some (tipId r)
+    | k + 1, i, prev =>
+      match headerAt r i with
+      | .error _ => false
+      | .ok hd =>
+        if (i == 0 && hd.id != g.id) || (i != 0 && some hd.prev != prev) then false
+        else go k (i + 1) (some hd.id)
+  if h < 0 then false else go (h.toNat + 1) 0 none
+
+/-- load the image of every prefix of the storage events of one Save/Clean. -/
+def crashPrefixes (s0 : Store) (evs : List StoreEv) (r : Repo) (g : Hdr) (depth : Int) : List String :=
+  (List.range (evs.length + 1)).map fun k =>
+    let st := (evs.take k).foldl Store.apply s0
+    let (r', e) := load { r with store := st } depth g
+    match e with
+    | some (.panic _) => s!"{k}:panic"
+    | some (.err _) => s!"{k}:err"
+    | none => s!"{k}:ok:{tipHeight r'}:{tipId r'}:{tipWork r'}:{if linkedFromGenesis r' g then 1 else 0}"
+
+/-- a Remove of a missing key is not an event (the harness only sees effective removals). -/
+def effectiveEvents (s0 : Store) (evs : List StoreEv) : List StoreEv :=
+  (evs.foldl (fun (acc : Store × List StoreEv) e =>
+    match e with
+    | .mainRemove f =>
+      if (List.lookup f acc.1.main).isSome || (List.lookup f acc.1.mainV0).isSome then (acc.1.apply e, acc.2 ++ [e]) else acc
+    | _ => (acc.1.apply e, acc.2 ++ [e])) (s0, [])).2
+
 def onOff (ws : List String) (k : String) (dflt : Bool) : Bool :=
   match kv ws k with
   | some "on" => true
   | some "off" => false
   | _ => dflt
 
-def stepLine (s : DState) (line : String) : DState × String :=
+def stepLine (s0 : DState) (line : String) : DState × String :=
+  let s := { s0 with repo := { s0.repo with events := [] } }
   let ws := splitWords line
   match ws with
   | "init" :: rest =>
@@ -170,6 +181,19 @@ def stepLine (s : DState) (line : String) : DState × String :=
       | some f => (s, s!"r={showFail "load" (some f)}")
     | none => (s, "bad-op")
   | "subscribe" :: _ => (s, "ok")
+  | "crashsave" :: rest =>
+    let s0 := s.repo.store
+    let (r, e) := save { s.repo with events := [] }
+    let evs := effectiveEvents s0 r.events
+    let ld : Int := (kvInt rest "ld").getD (Facts.pruneDepth : Int)
+    ({ s with repo := r }, s!"r={showFail "save" e} {tipStr r} ev=[{joinWith "," (evs.map evKind)}] p=[{joinWith "," (crashPrefixes s0 evs r s.genesis ld)}]")
+  | "crashclean" :: rest =>
+    let s0 := s.repo.store
+    let d : Int := (kvInt rest "d").getD (Facts.pruneDepth : Int)
+    let (r, e) := cleanWith { s.repo with events := [] } d
+    let evs := effectiveEvents s0 r.events
+    let ld : Int := (kvInt rest "ld").getD (Facts.pruneDepth : Int)
+    ({ s with repo := r }, s!"r={showFail "clean" e} {tipStr r} ev=[{joinWith "," (evs.map evKind)}] p=[{joinWith "," (crashPrefixes s0 evs r s.genesis ld)}]")
   | "mark" :: rest =>
     match kvNat rest "id" with
     | some id => let (r, e) := markInvalid s.repo id; ({ s with repo := r }, s!"r={showFail "mark" e} {tipStr r}")
@@ -183,6 +207,10 @@ def stepLine (s : DState) (line : String) : DState × String :=
     match kvNat rest "max" with
     | some m => (s, s!"loc={showLoc (locator s.repo m)}")
     | none => (s, "bad-op")
+  | "verify" :: rest =>
+    match (kvNat rest "id").bind (fun i => List.lookup i s.hdrs) with
+    | none => (s, "bad-op")
+    | some h => (s, s!"v={showVerdict (verifyHeader s.repo h)}")
   | "vloc" :: _ => (s, s!"loc={showLoc (verifyOnlyLocator s.repo)}")
   | _ => (s, "bad-op")
 
